@@ -115,6 +115,10 @@ pub fn exec(func: &str, a: &mut Args) -> String {
                 Ok(Some(c)) => format!("{} @ {} {}", c03::two::fcontact(&Some(c)), ff(g1.distance_to_point(&p1, &c.point1, true)), ff(g2.distance_to_point(&p2, &c.point2, true))),
             }
         }
+        "epa2" => fu4::exec_epa2(a),
+        "epa2c" => fu4::exec_epa2c(a),
+        "epa3" => fu4::exec_epa3(a),
+        "epa3c" => fu4::exec_epa3c(a),
         _ => "nofn".into(),
     }
 }
@@ -269,6 +273,8 @@ pub fn gen(r: &mut Rng, thorough: bool) -> Vec<(String, String)> {
             }
         }
     }
+    fu4::gen(r, thorough, &mut v);
+    fu4::gen3(r, thorough, &mut v);
     v
 }
 
@@ -612,5 +618,167 @@ pub mod fu2 {
             let (p1, p2, _) = c03::gen_poses(r, lat, &s1, &s2);
             v.push(("e_contact".into(), format!("{} {} {} {} {}", c03::hsh(&s1), d3::hiso(&p1), c03::hsh(&s2), d3::hiso(&p2), hx(par(r)))));
         }
+    }
+}
+
+// ================================================================== follow-up 4: the 2-D EPA run directly
+/// `epa2`: `EPA::closest_points(pos12, g1, g2, simplex)` of parry2d on a given start simplex.
+/// args: kind1 a1 b1 kind2 a2 b2 pos12 n (orig1 orig2){n}   (kind 0 = Cuboid(half extents a, b), 1 = Ball(radius a))
+/// Families: `gjk` (the simplex on which the library's own GJK stopped with `Intersection`: what `contact()` feeds to EPA;
+/// dimension 0, 1 or 2), `dirs` (CSO points of 2 or 3 chosen support directions: triangles of any orientation and shape around
+/// or beside the origin, segments through or beside it), lattice (ties in the heap, faces at equal distance, parallel axes) and random.
+pub mod fu4 {
+    use crate::util::*;
+    use crate::p2::query::gjk::{self as gjk2, CSOPoint as Cso2, GJKResult as Res2, VoronoiSimplex as Vs2};
+    use crate::p2::query::epa::EPA;
+    use crate::p2::shape::{Ball, Cuboid, SupportMap};
+    type Iso2 = d2::Isometry<Real2>; type Vec2 = d2::Vector<Real2>; type Real2 = f64;
+
+    fn shape(kind: usize, a: f64, b: f64) -> Box<dyn SupportMap> {
+        if kind == 0 { Box::new(Cuboid::new(Vec2::new(a, b))) } else { Box::new(Ball::new(a)) }
+    }
+    pub fn exec_epa2(a: &mut Args) -> String {
+        let (k1, a1, b1) = (a.u(), a.f(), a.f()); let (k2, a2, b2) = (a.u(), a.f(), a.f());
+        let pos12 = d2::iso(a); let n = a.u();
+        let (g1, g2) = (shape(k1, a1, b1), shape(k2, a2, b2));
+        let mut sx = Vs2::new();
+        for i in 0..n {
+            let o1 = d2::p(a); let o2 = d2::p(a);
+            let pt = Cso2::new(o1, o2);
+            if i == 0 { sx.reset(pt); } else if !sx.add_point(pt) { return "degenerate-simplex".into(); }
+        }
+        let mut epa = EPA::new();
+        match epa.closest_points(&pos12, &*g1, &*g2, &sx) {
+            None => "none".into(),
+            Some((p1, p2, nn)) => format!("{} {} {}", d2::fp(&p1), d2::fp(&p2), d2::fv(&nn)),
+        }
+    }
+    /// `epa2c`: the real `contact_support_map_support_map(pos12, g1, g2, 1.0)` (its own GJK + EPA + assembly); the trailing
+    /// simplex arguments are what the library's GJK ends on for these shapes (recorded by the generator) and are read by the model only
+    pub fn exec_epa2c(a: &mut Args) -> String {
+        let (k1, a1, b1) = (a.u(), a.f(), a.f()); let (k2, a2, b2) = (a.u(), a.f(), a.f());
+        let pos12 = d2::iso(a);
+        let (g1, g2) = (shape(k1, a1, b1), shape(k2, a2, b2));
+        let c = crate::p2::query::details::contact_support_map_support_map(&pos12, &*g1, &*g2, 1.0);
+        super::c03::two::fcontact(&c)
+    }
+    // ---- 3-D
+    use crate::p3::query::gjk::{self as gjk3, CSOPoint as Cso3, GJKResult as Res3, VoronoiSimplex as Vs3};
+    fn shape3(kind: usize, a: f64, b: f64, c: f64) -> Box<dyn crate::p3::shape::SupportMap> {
+        if kind == 0 { Box::new(crate::p3::shape::Cuboid::new(d3::Vector::new(a, b, c))) } else { Box::new(crate::p3::shape::Ball::new(a)) }
+    }
+    /// `epa3`: `EPA::closest_points` of parry3d on a given start simplex.
+    /// args: kind1 a1 b1 c1 kind2 a2 b2 c2 pos12 n (orig1 orig2){n}
+    pub fn exec_epa3(a: &mut Args) -> String {
+        let (k1, a1, b1, c1) = (a.u(), a.f(), a.f(), a.f()); let (k2, a2, b2, c2) = (a.u(), a.f(), a.f(), a.f());
+        let pos12 = d3::iso(a); let n = a.u();
+        let (g1, g2) = (shape3(k1, a1, b1, c1), shape3(k2, a2, b2, c2));
+        let mut sx = Vs3::new();
+        for i in 0..n {
+            let o1 = d3::p(a); let o2 = d3::p(a);
+            let pt = Cso3::new(o1, o2);
+            if i == 0 { sx.reset(pt); } else if !sx.add_point(pt) { return "degenerate-simplex".into(); }
+        }
+        let mut epa = crate::p3::query::epa::EPA::new();
+        match epa.closest_points(&pos12, &*g1, &*g2, &sx) {
+            None => "none".into(),
+            Some((p1, p2, nn)) => format!("{} {} {}", d3::fp(&p1), d3::fp(&p2), d3::fv(&nn)),
+        }
+    }
+    /// `epa3c`: the real `contact_support_map_support_map(pos12, g1, g2, 1.0)` of parry3d (own GJK + EPA + assembly); the trailing
+    /// simplex arguments (what the library's GJK ends on, recorded by the generator) are read by the model only
+    pub fn exec_epa3c(a: &mut Args) -> String {
+        let (k1, a1, b1, c1) = (a.u(), a.f(), a.f(), a.f()); let (k2, a2, b2, c2) = (a.u(), a.f(), a.f(), a.f());
+        let pos12 = d3::iso(a);
+        let (g1, g2) = (shape3(k1, a1, b1, c1), shape3(k2, a2, b2, c2));
+        let c = crate::p3::query::details::contact_support_map_support_map(&pos12, &*g1, &*g2, 1.0);
+        super::c03::fcontact(&c)
+    }
+    pub fn gen3(r: &mut Rng, thorough: bool, v: &mut Vec<(String, String)>) {
+        let n = if thorough { 6000 } else { 600 };
+        let mut fam = [0usize; 4];
+        for it in 0..n {
+            let lat = it % 2 == 0;
+            let (k1, k2) = match r.below(6) { 0 => (0, 1), 1 => (1, 0), 2 => (1, 1), _ => (0, 0) };
+            let he = |r: &mut Rng| if lat { *r.pick(&[0.25, 0.5, 1.0, 1.5, 2.0, 3.0]) } else { r.logu(0.05, 20.0) };
+            let (a1, b1, c1, a2, b2, c2) = (he(r), he(r), he(r), he(r), he(r), he(r));
+            let (g1, g2) = (shape3(k1, a1, b1, c1), shape3(k2, a2, b2, c2));
+            let ext = |k: usize, a: f64, b: f64, c: f64| if k == 0 { d3::Vector::new(a, b, c) } else { d3::Vector::new(a, a, a) };
+            let hs = ext(k1, a1, b1, c1) + ext(k2, a2, b2, c2);
+            let f = |r: &mut Rng| if lat { *r.pick(&[-0.75, -0.5, -0.25, 0.0, 0.0, 0.25, 0.5, 0.75, 1.0]) } else { r.uniform(-1.0, 1.0) };
+            let t = d3::Vector::new(hs.x * f(r), hs.y * f(r), hs.z * f(r));
+            let mut pos12 = d3::gen_iso(r, lat, 1.0);
+            if lat && r.below(3) != 0 { pos12 = d3::Isometry::identity(); }
+            pos12.translation.vector = t;
+            let sh = format!("{} {} {} {} {} {} {} {}", k1, hx(a1), hx(b1), hx(c1), k2, hx(a2), hx(b2), hx(c2));
+            let dir = d3::na::Unit::try_new(pos12.translation.vector, f64::EPSILON).unwrap_or(d3::Vector::x_axis());
+            let mut sx = Vs3::new();
+            sx.reset(Cso3::from_shapes(&pos12, &*g1, &*g2, &dir));
+            if let Res3::Intersection = gjk3::closest_points(&pos12, &*g1, &*g2, 1.0, true, &mut sx) {
+                let pts: Vec<Cso3> = (0..sx.dimension() + 1).map(|i| *sx.point(i)).collect();
+                let mut chk = Vs3::new(); let mut ok = true;
+                for (i, p) in pts.iter().enumerate() { if i == 0 { chk.reset(*p); } else if !chk.add_point(*p) { ok = false; } }
+                if !ok { continue; }
+                fam[sx.dimension()] += 1;
+                let mut s = format!("{} {} {}", sh, d3::hiso(&pos12), pts.len());
+                for p in &pts { s += &format!(" {} {}", d3::hp(&p.orig1), d3::hp(&p.orig2)); }
+                v.push(("epa3".into(), s.clone()));
+                v.push(("epa3c".into(), s));
+            }
+        }
+        if std::env::var("VERIF_DBG").is_ok() { eprintln!("C02 epa3 families: gjk-dim0={} dim1={} dim2={} dim3={}", fam[0], fam[1], fam[2], fam[3]); }
+    }
+    fn emit(v: &mut Vec<(String, String)>, sh: &str, pos12: &Iso2, pts: &[Cso2]) {
+        let mut sx = Vs2::new();
+        for (i, p) in pts.iter().enumerate() { if i == 0 { sx.reset(*p); } else if !sx.add_point(*p) { return; } }
+        let mut s = format!("{} {} {}", sh, d2::hiso(pos12), pts.len());
+        for p in pts { s += &format!(" {} {}", d2::hp(&p.orig1), d2::hp(&p.orig2)); }
+        v.push(("epa2".into(), s));
+    }
+    pub fn gen(r: &mut Rng, thorough: bool, v: &mut Vec<(String, String)>) {
+        let n = if thorough { 6000 } else { 600 };
+        let mut fam = [0usize; 4];
+        for it in 0..n {
+            let lat = it % 2 == 0;
+            let (k1, k2) = match r.below(6) { 0 => (0, 1), 1 => (1, 0), 2 => (1, 1), _ => (0, 0) };
+            let he = |r: &mut Rng| if lat { *r.pick(&[0.25, 0.5, 1.0, 1.5, 2.0, 3.0]) } else { r.logu(0.05, 20.0) };
+            let (a1, b1, a2, b2) = (he(r), he(r), he(r), he(r));
+            let (g1, g2) = (shape(k1, a1, b1), shape(k2, a2, b2));
+            let ext = |k: usize, a: f64, b: f64| if k == 0 { Vec2::new(a, b) } else { Vec2::new(a, a) };
+            let hs = ext(k1, a1, b1) + ext(k2, a2, b2);
+            // relative translation: overlapping by a chosen fraction (deep .. grazing), sometimes exactly centred / on an axis
+            let f = |r: &mut Rng| if lat { *r.pick(&[-0.75, -0.5, -0.25, 0.0, 0.0, 0.25, 0.5, 0.75, 1.0]) } else { r.uniform(-1.0, 1.0) };
+            let t = Vec2::new(hs.x * f(r), hs.y * f(r));
+            let rot = if lat && r.below(3) != 0 { *r.pick(&[(1.0, 0.0), (0.0, 1.0), (-1.0, 0.0), (0.0, -1.0)]) } else { d2::gen_rot(r, lat) };
+            let pos12 = Iso2::from_parts(d2::na::Translation2::from(t), d2::na::Unit::new_unchecked(d2::na::Complex::new(rot.0, rot.1)));
+            let sh = format!("{} {} {} {} {} {}", k1, hx(a1), hx(b1), k2, hx(a2), hx(b2));
+            // family `gjk`: the library's own start simplex
+            {
+                let dir = d2::na::Unit::try_new(pos12.translation.vector, f64::EPSILON).unwrap_or(Vec2::x_axis());
+                let mut sx = Vs2::new();
+                sx.reset(Cso2::from_shapes(&pos12, &*g1, &*g2, &dir));
+                if let Res2::Intersection = gjk2::closest_points(&pos12, &*g1, &*g2, 1.0, true, &mut sx) {
+                    let pts: Vec<Cso2> = (0..sx.dimension() + 1).map(|i| *sx.point(i)).collect();
+                    fam[sx.dimension()] += 1;
+                    let before = v.len();
+                    emit(v, &sh, &pos12, &pts);
+                    if v.len() > before { let args = v[before].1.clone(); v.push(("epa2c".into(), args)); }
+                }
+            }
+            // family `dirs`: CSO points of chosen directions
+            {
+                let k = if r.below(4) == 0 { 2 } else { 3 };
+                let a0 = if lat { (r.below(8) as f64) * std::f64::consts::FRAC_PI_4 } else { r.uniform(0.0, 6.3) };
+                let mut pts = Vec::new();
+                for j in 0..k {
+                    let ang = a0 + (j as f64) * (if k == 3 { 2.0943951023931953 } else { 3.141592653589793 }) + if lat { 0.0 } else { r.uniform(-0.7, 0.7) };
+                    let d = if lat { let (c, s) = (ang.cos().round(), ang.sin().round()); Vec2::new(c, s) } else { Vec2::new(ang.cos(), ang.sin()) };
+                    if d.norm() == 0.0 { continue; }
+                    pts.push(Cso2::from_shapes(&pos12, &*g1, &*g2, &d));
+                }
+                if pts.len() >= 2 { fam[3] += 1; emit(v, &sh, &pos12, &pts); }
+            }
+        }
+        if std::env::var("VERIF_DBG").is_ok() { eprintln!("C02 epa2 families: gjk-dim0={} gjk-dim1={} gjk-dim2={} dirs={}", fam[0], fam[1], fam[2], fam[3]); }
     }
 }
